@@ -112,6 +112,9 @@ def gen_cases(ctx, n):
             x = p * rng.randint(-5, 5)           # exact multiples of the period
         if rng.random() < 0.1:
             x = -abs(rng.choice([5e-324, 1e-20, 1e-17, 1e-300])) * rng.choice([1, p])
+        elif rng.random() < 0.1:
+            # tiny positive arguments (far below one ulp of the period) and arguments just inside the base cell
+            x = rng.choice([5e-324, 1e-300, 1e-20, 1e-17, 2.5e-16, 0.3, 0.999999]) * rng.choice([1, p])
         dim = rng.choice([1, 2, 3])
         vec = rng.random() < 0.3
         rec = Rec(vector=vec)
@@ -141,10 +144,26 @@ def gen_cases(ctx, n):
                     tol = 2.0 * math.ulp(xs[d]) / ps[d] + 8.0 * 2.220446049250313e-16 * abs(q) + 1e-9
                     if abs(q - round(q)) > tol:
                         ok, why = False, 'inner argument %r not congruent to %r mod %r' % (a, xs[d], ps[d])
+                if ok:
+                    # the mathematically mapped argument, exactly: x - k*p is representable for x >= 0 (it is fmod(x, p));
+                    # for x < 0 it is fmod(x, p) + p, which may need one rounding (and may round to p, equivalent to 0)
+                    if xs[d] >= 0:
+                        if a != m:
+                            ok, why = False, 'inner argument %r is not the exact image %r of %r mod %r' % (a, m, xs[d], ps[d])
+                    elif m == 0:
+                        if a != 0:
+                            ok, why = False, 'inner argument %r is not the exact image 0 of %r mod %r' % (a, xs[d], ps[d])
+                    else:
+                        from fractions import Fraction
+                        e = Fraction(m) + Fraction(ps[d])
+                        u = Fraction(math.ulp(ps[d]))
+                        if not (abs(Fraction(a) - e) <= u or (a == 0 and Fraction(ps[d]) - e <= u)):
+                            ok, why = False, 'inner argument %r is more than one ulp from the exact image of %r mod %r' % (a, xs[d], ps[d])
             else:
                 if inner[d] != xs[d] and not (math.isnan(inner[d]) and math.isnan(xs[d])):
                     ok, why = False, 'zero period must pass the argument through'
-            sig = 'C13:periodic:inner-argument-range' if 'not in [0' in why else 'C13:periodic:' + why[:40]
+            sig = ('C13:periodic:inner-argument-range' if 'not in [0' in why else
+                   'C13:periodic:inner-argument-not-exact-image' if 'exact image' in why else 'C13:periodic:' + why[:40])
             add('periodic%dD%s' % (dim, 'v' if vec else ''), line, [inner[d]] if inner else st,
                 (ok, sig, why), dict(cls=cls.__name__, periods=ps, args=xs, axis=d),
                 key=(f2b(xs[d]), f2b(ps[d])))
